@@ -19,7 +19,8 @@ RULE = ("one case = one whole history over <=6 sessions on a fresh component wit
         "incl. the partially released dual-stack session (State released, IA_NA/IA_PD bound) and its converse, lease and "
         "age classes incl. expired and zero time), ckrel / ck2 (checkpoint immediately followed by release / by another "
         "checkpoint on one goroutine with GOMAXPROCS(1): write order must equal call order), ck (asynchronous checkpoint, parks), cks (synchronous), rel (terminate), "
-        "done:<ticket> (any parked Put, any order), crash:<dataplane preserved|empty>[:failing add] (new component instance "
+        "done:<ticket> (any parked Put, any order), poison:<ticket>[:a] (that Put returns a transient Store error once / "
+        "always), cksf (synchronous checkpoint whose Put fails), crash:<dataplane preserved|empty>[:failing add] (new component instance "
         "restores from the surviving store), then further ops incl. more crashes; final dump = live sessions, store, "
         "dataplane and the free set of each pool (drained). Named classes: put overtaken by delete, stale put after newer "
         "put, lost put, expired, half-established, not bound, static addresses, exhausted pool, failing dataplane add, "
@@ -87,10 +88,13 @@ def _history(rng, proto, nops, nsess):
             live.remove(i)
             store.discard(i)
             tick += 2
-        elif r < 0.50 and live:
+        elif r < 0.49 and live:
             i = rng.choice(live)
             ops.append("cks:%d" % i)
             store.add(i)
+            tick += 1
+        elif r < 0.50 and live:
+            ops.append("cksf:%d" % rng.choice(live))
             tick += 1
         elif r < 0.62 and live:
             i = rng.choice(live)
@@ -113,6 +117,15 @@ def _history(rng, proto, nops, nsess):
             pend = [(tick + k, i) for k, i in enumerate(sorted(store))]
             tick += len(store)
             live = sorted(store)
+        if pend and rng.random() < 0.08:
+            t, i = rng.choice(pend)
+            ops.append("poison:%d%s" % (t, rng.choice(["", "", ":a"])))
+            if rng.random() < 0.5 and i in live:
+                ops.append("rel:%d" % i)      # the in-flight write fails while the delete waits behind it
+                live.remove(i)
+                store.discard(i)
+                tick += 1
+                ops.append("done:%d" % t)
         if rng.random() < 0.03 and live:
             ops.append("ck:%d" % (nxt + 1))      # checkpoint of an unknown session: skipped
     return ops
@@ -153,6 +166,15 @@ def _structured(proto):
         [n(0), "ck2:0", "done:1", "done:0", "crash:p"],
         [n(0), "ck2:0", "done:0", "done:1", "crash:p"],
         [n(0), "ck2:0", "ckrel:0", "done:1", "done:0", "done:2", "crash:p"],
+        # fault plan: the in-flight checkpoint Put fails with a transient Store error
+        [n(0), "ck:0", "poison:0", "rel:0", "done:0", "crash:p"],
+        [n(0), "ck:0", "poison:0:a", "rel:0", "done:0", "done:0", "crash:e", n(1)],
+        [n(0), "ck:0", "poison:0", "done:0", "done:0", "crash:p"],
+        [n(0), "ck:0", "ck:0", "poison:0", "done:0", "done:1", "done:0", "crash:p"],
+        [n(0), "ck:0", "poison:0", "cks:0", "done:0", "crash:p"],
+        [n(0), "ck:0", "done:0", "cksf:0", "crash:p", "cksf:0", "rel:0", "crash:p"],
+        [n(0), "cksf:0", "crash:p", n(1)],
+        [n(0), "ck:0", "done:0", "crash:p", "poison:1", "rel:0", "done:1", "crash:p"],
         [n(0), "ck:0", "done:0", "crash:p", "ck2:0", "done:3", "done:2", "done:1", "crash:e"],
     ]
     if proto == "ipoe":
@@ -226,7 +248,7 @@ def _monitor(case, impl):
     released, live = set(), {}
     for o, s in zip(ops, segs):
         a = o.split(":")
-        if a[0] == "rel" and s.startswith("rel"):
+        if (a[0] == "rel" and s.startswith("rel")) or (a[0] == "ckrel" and s.startswith("ckrel")):
             released.add(int(a[1]))
             live.pop(int(a[1]), None)
         elif a[0] == "crash":
